@@ -448,7 +448,7 @@ func NewPortfolio() *Portfolio {
 		p.Stats[n] = &BackendStat{}
 	}
 	p.order = []string{"z3", "cvc5int", "z3new", "cvc5"}
-	p.feas = []string{"z3", "cvc5int", "cvc5", "z3new"}
+	p.feas = []string{"cvc5", "z3", "cvc5int", "z3new"}
 	return p
 }
 
